@@ -870,6 +870,8 @@ func (c *Ctx) opIDRules(reach []*core.FuncInfo) {
 					var iterBody []ast.Stmt
 					if rs, ok := loop.(*ast.RangeStmt); ok {
 						iterBody = rs.Body.List
+					} else if fs, ok := loop.(*ast.ForStmt); ok {
+						iterBody = fs.Body.List // the index form of the same loop
 					} else if loop == nil {
 						iterBody = fi.Decl.Body.List // a helper called once per operation: its body is the iteration
 					}
